@@ -224,6 +224,13 @@ def run(tier, seed, replay=None):
             continue
         stats['both_accepted'] += 1
         nontrivial.add(c.invocation())
+    # inherent blocks (part of the documented fragment): accepted and usable
+    from . import c17
+    icases, istats, inon, iviol = c17.core(rng, 10 if tier == 'quick' else 150)
+    stats['inherent_mode'] = dict(cases=istats['cases'], programs=istats['programs'])
+    stats['programs'] += istats['programs']
+    nontrivial |= inon
+    violations += [v for v in iviol if 'does not compile' in v['oracle']]
     stats['axis_pairs'] = len(axes)
     if stats['cases'] and stats['reference_table_wrong'] > max(2, 0.05 * stats['cases']):
         raise cm.HarnessError('the reference encoding disagrees with the shadow-trait oracle on %d cases' % stats['reference_table_wrong'])
